@@ -313,6 +313,14 @@ class MultiTierCache(Entity):
         if self._tiers:
             target_tier = self._tiers[0]
             if hasattr(target_tier, "_cache_put"):
+                # The value comes from a backing-store read that started before
+                # now. If L1 got an entry for the key in the meantime (a put()),
+                # or still has a write for it on its way to the backing store,
+                # L1 is at least as new - never replace it by the fetched value.
+                if hasattr(target_tier, "contains_cached") and target_tier.contains_cached(key):
+                    return
+                if key in getattr(target_tier, "_inflight_writes", ()):
+                    return
                 target_tier._cache_put(key, value)
 
     def get_tier_stats(self) -> dict[int, dict]:
